@@ -22,6 +22,12 @@ def run(tier, seed):
     for we in ("narrow16", "narrow32"):
         ctx.replay(g, NDAdapter(POS["dyadic"], WTS[we], spelling=1), VIEW - {"err2"}, first_actions={"FromArrays"}, label=f"dyadic/{we}/sp1",
                    edge_budget=30000 if tier == "quick" else 150000)
+    # projections of the transformed classes (their own override of projection): marginal contents and classes as in C15, plus the
+    # scaled-projection relation that ties the squared errors to the same sums
+    from lib.a_special import SpecialAdapter
+    _r, gs = ctx.model_check("MC_Special_q", required_actions=["Project"])
+    ctx.replay(gs, SpecialAdapter((0, 2, 5, 7), (-3, 0, 2, 5), 8, 4, 1.0, False, 1), {"all"}, label="transformed-projections",
+               edge_budget=30000 if tier == "quick" else 120000)
     ctx.assumptions = ["every cell of the array-built parents holds a distinct content (positional code), so a reduction over a wrong axis changes the result"]
     return ctx.finish("parents of shape (2,3), (1,2,3), (2,1,2,3) with distinct cell contents and parents built from rows; TLC enumerates "
                       "every projection onto every ordered selection of 1..3 axes (by index or by name), projections of projections, "
